@@ -166,7 +166,7 @@ def pacing_judge(out, script, cfg):
     return facts
 
 
-def run_pacing(script, cfg):
+def run_pacing(script, cfg, epoch=None, tz=None):
     threshold, sleep, max_delay = cfg
 
     def configure(mgr):
@@ -175,7 +175,7 @@ def run_pacing(script, cfg):
         mgr.back_off_connect_error.max_delay = max_delay
 
     need = sum(s[1] for s in script) + sum((s[2] or 0) for s in script) + len(script) * (max(sleep, max_delay) + 1) + 50
-    out = vtloop.run_scenario(script, horizon=need, configure=configure, sample_tasks=False)
+    out = vtloop.run_scenario(script, horizon=need, configure=configure, sample_tasks=False, epoch=epoch, tz=tz)
     if out.get("loop_exc") is not None:
         fail(f"connect_loop() raised {out['loop_exc']!r}", sig="loop-raised")
     if out.get("livelock"):
@@ -218,6 +218,39 @@ def pacing_oracle(case) -> Info:
     return Info(nontrivial=nt, classes=tuple(classes), sample={"script": [list(s) for s in script], "cfg": list(cfg)})
 
 
+# ---- the wall clock crosses a daylight-saving change of the process's time zone between two losses ------------------------------------
+import datetime as _dt  # noqa: E402
+
+DST_ZONES = [  # POSIX TZ rules (no tzdata needed) and their 2021 change dates
+    ("CET-1CEST,M3.5.0,M10.5.0/3", [(2021, 3, 28), (2021, 10, 31)]),
+    ("EST5EDT,M3.2.0,M11.1.0", [(2021, 3, 14), (2021, 11, 7)]),
+    ("<+1030>-10:30<+11>-11,M10.1.0,M4.1.0", [(2021, 10, 3), (2021, 4, 4)]),  # Lord Howe: half-hour daylight saving
+]
+DST_SCRIPTS = [
+    ([("ok", 0.0, 3.0), ("ok", 0.0, 3.0), ("ok", 0.0, 30.0)], 4.5),  # losses at 3 s and 6 s: the clock boundary falls between them
+    ([("ok", 0.0, 0.3), ("fail", 0.0, None), ("ok", 0.0, 0.3), ("ok", 0.0, 30.0)], 1.0),  # losses at 0.3 s and 1.6 s (1 s back-off between)
+]
+_DST_GRID = [(zi, di, dd, h, m, si) for zi in range(3) for di in range(2) for dd in (-1, 0) for h in range(24) for m in (0, 30) for si in range(len(DST_SCRIPTS))]
+
+
+def dst_case(i, tier):
+    return _DST_GRID[i]
+
+
+def dst_oracle(case) -> Info:
+    zi, di, dd, h, m, si = case
+    tz, dates = DST_ZONES[zi]
+    script, boundary = DST_SCRIPTS[si]
+    # the (naive UTC) wall clock reads h:m:00 exactly `boundary` seconds into the run; every hour and half hour of the change date and the day before
+    epoch = _dt.datetime(*dates[di], h, m, 0) + _dt.timedelta(days=dd) - _dt.timedelta(seconds=boundary)
+    cfg = (5, 9, 3)
+    out = run_pacing([tuple(s) for s in script], cfg, epoch=epoch, tz=tz)
+    facts = pacing_judge(out, script, cfg)
+    if not facts["double_loss"]:
+        fail(f"harness: script {script} produced no double loss", sig="harness")
+    return Info(nontrivial=True, classes=(f"tz:{zi}", f"script:{si}", "change-date" if dd == 0 else "day-before"), sample={"tz": tz, "epoch": epoch.isoformat(), "script": [list(s) for s in script]})
+
+
 _pstep = st.one_of(
     st.tuples(st.sampled_from(FAIL_KINDS), st.sampled_from([0.0, 0.0, 0.5, 3.0]), st.none()),
     st.tuples(st.sampled_from(FAIL_KINDS), st.sampled_from([0.0, 0.0, 0.5, 3.0]), st.none()),
@@ -258,5 +291,6 @@ def build() -> Check:
             EnumClause("strategy-streaks", size=lambda tier: len(STREAKS), case_at=lambda i, tier: STREAKS[i], oracle=strat_streak_oracle, doc="1030..5000 consecutive failure() calls (beyond 2^1023)", exhaustive=False),
             EnumClause("pacing-all", size=pacing_enum_size, case_at=pacing_enum_case, oracle=pacing_oracle, doc="every script up to the tier's length x 4 configurations"),
             HypClause("pacing", pacing_hyp_st, pacing_oracle, quick=2500, thorough=60000),
+            EnumClause("pacing-dst", size=lambda tier: len(_DST_GRID), case_at=dst_case, oracle=dst_oracle, doc="two losses 3 s / 1.3 s apart while the wall clock passes every full and half hour of a daylight-saving change date (and the day before) in 3 process time zones given as POSIX TZ rules"),
         ],
     )
